@@ -22,6 +22,7 @@ MACRO_SETS = [
     [("log", "info"), ("tracing", "info")],
     [("журнал", "инфо")],
     [("log", "info"), ("tracing", "event"), ("my_app::audit", "record")],
+    [("app_core::telemetry::audit", "record"), ("audit", "note")],
 ]
 
 
